@@ -5,6 +5,7 @@
 use vstd::prelude::*;
 use std::sync::Arc;
 
+// verif: counter-overflow-undecided
 verus! {
 
 // assumed std contract (vstd has none): <[T]>::to_vec clones element-wise
